@@ -26,7 +26,7 @@ CONDS = [[("is_good", "==", 2)], [("duration", ">=", 8)], [("duration", "<", 8),
          [("m3", "<=", 2)], [("m3", ">", 200)], [("start_sample", ">=", 0), ("duration", "!=", 6), ("m3", "<", 6)],
          [("chain_ind", ">", -2)], [("duration", ">", 7)], [("m1", ">", 20)], [("m1", "<=", 21), ("duration", "==", 8)],
          [("chain_position", "==", 0)], [("duration", "==+", 8)],
-         [("duration", "!=+", 8), ("start_sample", "<=+", 16), ("start_sample", ">+", 0)]]
+         [("duration", "!=+", 8), ("start_sample", "<=+", 16), ("start_sample", ">+", 0)], [("start_sample", "!=", 8)]]
 FUNC = {'sum': np.sum, 'max': np.max, 'len': len}
 
 
@@ -180,8 +180,8 @@ def run():
                 deep[json.dumps(hist_of(b))] = hist_of(b)
         for h in paths + list(deep.values()):
             items.append((len(items), fam, h))
-    for w in ('W_TwoChains', 'W_EmptySelection'):
-        core.write_cfg(cfg, spec='Spec', invariants=[w], constants={'M': 24, 'MaxOps': 3, 'Fam': 2, 'Focus': 0})
+    for w in ('W_TwoChains', 'W_EmptySelection', 'W_LongSecondChain'):
+        core.write_cfg(cfg, spec='Spec', invariants=[w], constants={'M': 24, 'MaxOps': 4, 'Fam': 1, 'Focus': 2} if w == 'W_LongSecondChain' else {'M': 24, 'MaxOps': 3, 'Fam': 2, 'Focus': 0})
         core.expect_violation(ctx, 'CyclesContainer', cfg, w, 'CyclesContainer ' + w, workers=4)
     ctx.leg('A', invariants=invs, histories=len(items))
     nbad = 0
